@@ -234,6 +234,22 @@ CHECKS["C11"] = dict(
                        "disappearance of the phase -- the core of the property -- are NOT decided; this is the thinnest claim of the set.",
 )
 
+CHECKS["C07"] = dict(
+    level="other",
+    technique="static analysis: dimension inference (forward abstract interpretation over a lattice of powers of energy with symbolic exponents), "
+              "seeded by a signature table of qualified API names; sink checks at call arguments / returns / attribute stores; closed triaged "
+              "table of absolute-scale sites including scipy defaults that are absolute",
+    text="Covariance under a change of units is a relation between runs; what is in the shape of the code is dimensional homogeneity. The "
+         "inference types ~6600 expression nodes in 9 modules from ~330 API seeds and decides: no sum, difference, comparison, min/max of "
+         "unequal kinds, no dimensionful transcendental argument or exponent, every argument of a package call / constructor, every "
+         "return value and attribute store has the kind the API table states (this is the 'all lengths through 1/Tnucl' mechanism: "
+         "dropping one /Tnucl is reported at the call that receives it), and the set of sites where a bare number or a dimensionless "
+         "tolerance meets a dimensionful quantity equals a triaged table of 11 entries (each with the reason it is harmless for unit "
+         "factors 1e-2..1e2); a new hard-wired scale is a violation.",
+    note=COMMON_NOTE + " Whether a listed absolute site changes an output beyond tolerance for a particular model is a relation between two runs "
+                       "and is not decided. Unknown kinds are silent (coverage and a typed-node floor are reported).",
+)
+
 NOT_APPLICABLE = {}
 
 ENGINES = [
